@@ -129,7 +129,9 @@ Definition with_exec (sh : gov_shape) (plain : bool) (cache_in_loop write_in_loo
      sh_egf_key := sh_egf_key sh; sh_type_key := sh_type_key sh; sh_tally_checks := sh_tally_checks sh;
      sh_mixed_compare := sh_mixed_compare sh; sh_mixed_fold := sh_mixed_fold sh;
      sh_quorum_default_only_absent := sh_quorum_default_only_absent sh;
-     sh_period_default_only_absent := sh_period_default_only_absent sh |}.
+     sh_period_default_only_absent := sh_period_default_only_absent sh;
+     sh_bad_inactive_dequeued := sh_bad_inactive_dequeued sh;
+     sh_bad_active_dequeued_by_key := sh_bad_active_dequeued_by_key sh |}.
 
 Definition m_ok : msg := {| m_type := 4; m_spend := []; m_act := AOk 7 |}.
 Definition m_bad : msg := {| m_type := 4; m_spend := []; m_act := AFail |}.
